@@ -243,6 +243,13 @@ def translate():
     need("self._tx_model_repository.all_models[filename] = other_model" in it and
          "other_model._tx_model_repository = GlobalModelRepository(self._tx_model_repository.all_models)" in it, "metamodel callback no longer registers the model")
     need(_has(it, "if self._tx_model_repository.all_models.has_model(file_name): model = self._tx_model_repository.all_models[file_name]"), "global cache lookup changed")
+    # the cache of the metamodel's own global repository is consulted for EVERY load through this metamodel (main loads
+    # and imports arriving with a callback alike): the lookup is a direct child of the `hasattr` block
+    gblk = [x for x in imf.body if isinstance(x, ast.If) and ast.unparse(x.test) == "hasattr(self, '_tx_model_repository')"]
+    need(len(gblk) == 1 and not gblk[0].orelse, "global repository block of internal_model_from_file not found")
+    need(any(isinstance(x, ast.If) and ast.unparse(x.test) == "self._tx_model_repository.all_models.has_model(file_name)"
+             and _text(x.body) == "model = self._tx_model_repository.all_models[file_name]" and not x.orelse for x in gblk[0].body),
+         "the global cache lookup is no longer unconditional inside the global repository block (e.g. only for loads without a callback)")
     loop_txt = "for p in self._model_processors:\n    p(model, self)"
     # the loop is either at the end of the function (every returned model, also one taken from the global
     # repository, is processed) or inside the `if not model:` block (only freshly loaded models are processed)
